@@ -8,6 +8,7 @@ import ast
 import builtins
 import copy as _copy
 import datetime as _dt
+import inspect
 import math as _math
 import re as _re
 
@@ -67,7 +68,8 @@ _BASE_DIGITS = {2: '01', 8: '01234567', 10: DEC_DIGITS, 16: '0123456789abcdefABC
 def _ax_str_int(args, res):
     i = to_int(args[0])
     return z3.And(z3.InRe(res.t, z3.Concat(z3.Option(z3.Re('-')), z3.Plus(_re_digits(DEC_DIGITS)))),
-                  (i < 0) == z3.PrefixOf(z3.StringVal('-'), res.t))
+                  (i < 0) == z3.PrefixOf(z3.StringVal('-'), res.t),
+                  INT_OK.u.f(res.t, z3.IntVal(10)), INT_OF.u.f(res.t, z3.IntVal(10)) == i)
 
 
 def _ax_digits(chars):
@@ -167,10 +169,6 @@ STRIP = uf('py_strip', ['str'], 'str', lambda s: s.strip(), axiom=(
     _ax_strip, lambda a, r: not r.startswith(' ') and not r.endswith(' ') and r in a[0] and
     (not _re.fullmatch(r'[!-~]*', a[0]) or r == a[0]), [[''], [' a '], ['a b'], ['  '], ['\tx\n']]))
 TITLE = uf('py_title', ['str'], 'str', lambda s: s.title())
-STR_INT = uf('py_str_int', ['int'], 'str', lambda i: str(i), axiom=(
-    'str(i) matches -?[0-9]+ and starts with "-" exactly when i < 0', _ax_str_int,
-    lambda a, r: _re.fullmatch(r'-?[0-9]+', r) is not None and (a[0] < 0) == r.startswith('-'),
-    [[0], [-1], [5], [10**20], [-10**20]]))
 STR_REAL = uf('py_str_float', ['real'], 'str', lambda x: str(float(x)))
 REPR_STR = uf('py_repr_str', ['str'], 'str', lambda s: repr(s))
 def _ax_int_of(args, res):
@@ -196,6 +194,10 @@ INT_OF = uf('py_int_of_str', ['str', 'int'], 'int', _safe(lambda s, b: int(s, b)
     [['0', 2], ['1111111111', 2], ['7777777777', 8], ['FFFFFFFFFF', 16], ['ffffffffff', 16], ['9999999999', 10], ['', 2], ['12', 2]]))
 FLOAT_OK = uf('py_float_parses', ['str'], 'bool', _safe(lambda s: (float(s), True)[1], False))
 FLOAT_OF = uf('py_float_of_str', ['str'], 'real', _safe(lambda s: float(s), 0.0))
+STR_INT = uf('py_str_int', ['int'], 'str', lambda i: str(i), axiom=(
+    'str(i) matches -?[0-9]+, starts with "-" exactly when i < 0, and int(str(i)) == i', _ax_str_int,
+    lambda a, r: _re.fullmatch(r'-?[0-9]+', r) is not None and (a[0] < 0) == r.startswith('-') and int(r) == a[0],
+    [[0], [-1], [5], [10**20], [-10**20]]))
 ZFILL = uf('py_zfill', ['str', 'int'], 'str', lambda s, n: s.zfill(n))
 def _fmt_uf(fn, name, chars):
     return uf(name, ['int'], 'str', lambda v: fn(v)[2:] if v >= 0 else '', axiom=(
@@ -911,9 +913,58 @@ def py_pow(it, a, b):
     if it.branch(Sym(z3.And(ra == 0, rb < 0), 'bool')):
         raise RaiseEx(ZeroDivisionError('0.0 cannot be raised to a negative power'))
     if it.branch(Sym(z3.And(ra < 0, z3.Not(z3.IsInt(rb))), 'bool')):
-        raise Unsupported('negative base with fractional exponent yields complex')
+        return SymComplex()
     USED_UFS.add('py_pow')
     return Sym(S.POW(ra, rb), 'real')
+
+
+class SymComplex(SymObject):
+    """result of a negative base raised to a fractional power: only its type (complex) is modelled"""
+    py_type = complex
+
+    def binop(self, it, op, other, reflected):
+        raise Unsupported('arithmetic on a complex power result')
+
+    def compare(self, it, op, other, reflected):
+        return NotImplemented
+
+
+def m_np_power(it, a, b):
+    """numpy.power on python objects works element-wise through operator.pow (object dtype): the repository's
+    Number.__pow__ decides; on plain floats it is the IEEE power function (uninterpreted)."""
+    from .interp import is_repo_obj
+    if is_repo_obj(a) or is_repo_obj(b):
+        return it.binop(ast.Pow, a, b)
+    if is_sym(a) or is_sym(b):
+        return np_ufunc('power', 2)(it, a, b)
+    import numpy as np
+    return it.native(np.power, [a, b], {})
+
+
+def m_dateutil_parse(it, s, *a, **k):
+    """ASSUMED contract on dateutil.parser.parse: returns some datetime or raises ValueError/OverflowError"""
+    import dateutil.parser
+    if not is_sym(s):
+        return it.native(dateutil.parser.parse, [s] + list(a), k)
+    from . import models_datetime as MD
+    if it.branch(DATEUTIL_OK(s)):
+        o = fresh('int', 'parsed_ordinal')
+        sec = fresh('int', 'parsed_second')
+        it.assume(Sym(z3.And(o.t >= MD.MIN_ORD, o.t <= MD.MAX_ORD, sec.t >= 0, sec.t < 86400), 'bool'))
+        return MD.SymDateTime(o, sec)
+    raise RaiseEx(ValueError('Unknown string format'))
+
+
+def _dateutil_ok(s):
+    import dateutil.parser
+    try:
+        dateutil.parser.parse(s)
+        return True
+    except Exception:
+        return False
+
+
+DATEUTIL_OK = uf('dateutil_parses', ['str'], 'bool', _dateutil_ok)
 
 
 def m_pow(it, a, b, mod=None):
@@ -1083,13 +1134,52 @@ def m_math_trunc(it, x):
 BUILTIN_MODELS[_math.trunc] = m_math_trunc
 
 
+def _npf_model(name, params):
+    """numpy_financial functions as uninterpreted functions of their (float) arguments; `when` must be concrete"""
+    import numpy_financial as npf
+    fn = getattr(npf, name)
+
+    def m(it, *args, **kwargs):
+        if not (deep_has_sym(args) or deep_has_sym(kwargs)):
+            return it.native(fn, list(args), kwargs)
+        ba = inspect.signature(fn).bind(*args, **kwargs)
+        ba.apply_defaults()
+        vals = []
+        for pn in params:
+            v = ba.arguments[pn]
+            if pn == 'when':
+                if is_sym(v):
+                    v = num(v)
+                    if v.k != 'int':
+                        raise Unsupported('npf when= symbolic non-int')
+                else:
+                    v = {'end': 0, 'begin': 1, 0: 0, 1: 1}.get(v)
+                    if v is None:
+                        raise Unsupported('npf when=')
+            elif not is_sym(v):
+                v = lift(v) if is_prim(v) else m_float(it, v)
+            vals.append(num(v))
+        key = 'npf.' + name
+        if key not in NP_UF:
+            NP_UF[key] = uf('npf_' + name, ['real'] * len(params), 'real',
+                            lambda *v, fn=fn: float(fn(*[float(x) for x in v[:-1]], when=int(v[-1]))) if params[-1] == 'when'
+                            else float(fn(*[float(x) for x in v])))
+        return NP_UF[key](*vals)
+    return m
+
+
 def _install_numpy():
+    import numpy_financial as npf
+    BUILTIN_MODELS[npf.pmt] = _npf_model('pmt', ['rate', 'nper', 'pv', 'fv', 'when'])
+    BUILTIN_MODELS[npf.pv] = _npf_model('pv', ['rate', 'nper', 'pmt', 'fv', 'when'])
     import numpy as np
     for n in ('arccos', 'arccosh', 'arcsin', 'arcsinh', 'arctan', 'cos', 'cosh', 'degrees', 'exp', 'log10',
               'radians', 'sign', 'sin', 'sinh', 'tan', 'tanh', 'sqrt', 'arctanh'):
         BUILTIN_MODELS[getattr(np, n)] = np_ufunc(n, 1)
-    for n in ('arctan2', 'power'):
-        BUILTIN_MODELS[getattr(np, n)] = np_ufunc(n, 2)
+    BUILTIN_MODELS[np.arctan2] = np_ufunc('arctan2', 2)
+    BUILTIN_MODELS[np.power] = m_np_power
+    import dateutil.parser
+    BUILTIN_MODELS[dateutil.parser.parse] = m_dateutil_parse
 
 
 _install_numpy()
